@@ -127,6 +127,10 @@ type Explorer struct {
 	observed []obsRec
 	expectPanic int
 	owned    bool
+	env      *term.RangeEnv
+	Filtered int
+	pending  []pendingAssert
+	NoBatch  bool
 }
 
 type obsRec struct {
@@ -167,7 +171,9 @@ func (x *Explorer) ensureModel() {
 
 func (x *Explorer) push(d Decision) {
 	x.Decs = append(x.Decs, d)
-	x.In.S.Push(d.pcTerm(x.st()))
+	pt := d.pcTerm(x.st())
+	x.In.S.Push(pt)
+	x.env.Assume(pt)
 	x.pos = len(x.Decs)
 	if len(x.Decs) > x.Res.MaxDepth {
 		x.Res.MaxDepth = len(x.Decs)
@@ -178,6 +184,8 @@ func (x *Explorer) push(d Decision) {
 		}
 	}
 }
+
+var debugBranches = os.Getenv("ZSX_DEBUG_BRANCHES") != ""
 
 func (x *Explorer) ownsPrefix() bool {
 	if x.ShardN <= 1 {
@@ -210,16 +218,28 @@ func (in *Interp) branch(c Value, label string) bool {
 }
 
 func (x *Explorer) branchSym(c *term.Term, label string) bool {
+	switch x.env.Tri(c) {
+	case 1:
+		x.Filtered++
+		return true
+	case 0:
+		x.Filtered++
+		return false
+	}
 	if x.pos < len(x.Decs) {
 		d := &x.Decs[x.pos]
 		if d.Kind != dBranch || d.Cond != c {
 			panic(abortPath{"engine", fmt.Sprintf("non-deterministic replay at decision %d: have %v want %v", x.pos, c, d.Cond)})
 		}
 		x.pos++
+		x.env.Assume(d.pcTerm(x.st()))
 		return d.Dir
 	}
 	st := x.st()
 	x.ensureModel()
+	if debugBranches {
+		fmt.Fprintf(os.Stderr, "BR %s\n", truncate(c.String(), 200))
+	}
 	var dir bool
 	known := false
 	if v, ok := term.Eval(c, x.model); ok {
@@ -277,12 +297,19 @@ func (x *Explorer) concretize(t *term.Term, what string) uint64 {
 	st := x.st()
 	count := 0
 	for {
+		if t.W > 0 {
+			if r := x.env.Of(t); r.Lo == r.Hi {
+				x.Filtered++
+				return r.Lo
+			}
+		}
 		if x.pos < len(x.Decs) {
 			d := &x.Decs[x.pos]
 			if d.Kind != dConc || d.Cond != t {
 				panic(abortPath{"engine", fmt.Sprintf("non-deterministic replay (concretise %s) at decision %d", what, x.pos)})
 			}
 			x.pos++
+			x.env.Assume(d.pcTerm(x.st()))
 			if d.Dir {
 				return d.Val
 			}
@@ -319,14 +346,22 @@ func (x *Explorer) assume(c Value) {
 			panic(abortPath{"assume", ""})
 		}
 	case *term.Term:
+		switch x.env.Tri(c) {
+		case 1:
+			return
+		case 0:
+			panic(abortPath{"assume", ""})
+		}
 		if x.pos < len(x.Decs) {
 			d := &x.Decs[x.pos]
 			if d.Kind != dAssume || d.Cond != c {
 				panic(abortPath{"engine", fmt.Sprintf("non-deterministic replay (assume) at decision %d", x.pos)})
 			}
 			x.pos++
+			x.env.Assume(c)
 			return
 		}
+		x.flushAsserts()
 		x.ensureModel()
 		if v, ok := term.Eval(c, x.model); !ok || v != 1 {
 			r, m := x.In.S.Check(c, true, false)
@@ -353,13 +388,62 @@ func (x *Explorer) assert(c Value, site string) {
 		}
 	case *term.Term:
 		x.Res.Sites[site]++
-		r, m := x.In.S.Check(x.st().Not(c), true, true)
-		switch r {
-		case solve.Sat:
-			x.violation(site, "assertion can be false: "+truncate(c.String(), 300), m)
-		case solve.Unknown:
-			x.incomplete("assertion undecided at site " + site)
-			x.Res.Outcomes["assert-undecided"]++
+		// deferred: all assertions of a path are decided by one query at the end of the path (or
+		// before the next assumption, which would otherwise weaken them)
+		x.pending = append(x.pending, pendingAssert{c, site})
+		if x.NoBatch {
+			x.flushAsserts()
+		}
+	}
+}
+
+type pendingAssert struct {
+	c    *term.Term
+	site string
+}
+
+// flushAsserts decides the pending assertions: PC and not (a1 and ... and an).
+func (x *Explorer) flushAsserts() {
+	if len(x.pending) == 0 {
+		return
+	}
+	pend := x.pending
+	x.pending = nil
+	st := x.st()
+	conj := st.Bool(true)
+	for _, p := range pend {
+		conj = st.And(conj, p.c)
+	}
+	r, m := x.In.S.Check(st.Not(conj), true, true)
+	switch r {
+	case solve.Sat:
+		for _, p := range pend {
+			if v, ok := term.Eval(p.c, m); ok && v == 0 {
+				x.violation(p.site, "assertion can be false: "+truncate(p.c.String(), 300), m)
+			}
+		}
+		// the model falsifies the conjunction only through uninterpreted terms: decide one by one
+		for _, p := range pend {
+			r1, m1 := x.In.S.Check(st.Not(p.c), true, true)
+			if r1 == solve.Sat {
+				x.violation(p.site, "assertion can be false: "+truncate(p.c.String(), 300), m1)
+			}
+			if r1 == solve.Unknown {
+				x.incomplete("assertion undecided at site " + p.site)
+				x.Res.Outcomes["assert-undecided"]++
+			}
+		}
+	case solve.Unknown:
+		// retry one by one
+		for _, p := range pend {
+			r1, m1 := x.In.S.Check(st.Not(p.c), true, true)
+			if r1 == solve.Sat {
+				x.violation(p.site, "assertion can be false: "+truncate(p.c.String(), 300), m1)
+			}
+			if r1 == solve.Unknown {
+				x.incomplete("assertion undecided at site " + p.site)
+				x.Res.Outcomes["assert-undecided"]++
+			}
 		}
 	}
 }
@@ -390,7 +474,7 @@ func (x *Explorer) decString() string {
 		case d.Kind == dAssume:
 			b = append(b, 'a')
 		case d.Kind == dConc && d.Dir:
-			b = append(b, fmt.Sprintf("=%d,", d.Val)...)
+			b = append(b, fmt.Sprintf("=%d(%s),", d.Val, d.Label)...)
 		case d.Kind == dConc:
 			b = append(b, '!')
 		case d.Dir:
@@ -507,6 +591,7 @@ func (x *Explorer) runOnce(h *ssa.Function) (outcome string) {
 	x.inputSet = map[string]*term.Term{}
 	x.observed = nil
 	x.expectPanic = 0
+	x.env = term.NewRangeEnv()
 	in.S.PopTo(x.prefixLen)
 	if len(x.Decs) > x.prefixLen {
 		x.Decs = x.Decs[:x.prefixLen]
@@ -515,6 +600,19 @@ func (x *Explorer) runOnce(h *ssa.Function) (outcome string) {
 		r := recover()
 		if r == nil {
 			return
+		}
+		if ap, ok := r.(abortPath); !ok || (ap.Kind != "violation" && ap.Kind != "engine" && ap.Kind != "notowned") {
+			// assertions passed before the path ended abnormally still have to be decided
+			func() {
+				defer func() {
+					if r2 := recover(); r2 != nil {
+						if ap2, ok := r2.(abortPath); ok && ap2.Kind == "violation" {
+							r = r2
+						}
+					}
+				}()
+				x.flushAsserts()
+			}()
 		}
 		switch r := r.(type) {
 		case abortPath:
@@ -541,9 +639,11 @@ func (x *Explorer) runOnce(h *ssa.Function) (outcome string) {
 		}
 		x.sample(outcome)
 	}()
+	x.pending = nil
 	in.ensureInit(in.MainPkg)
 	in.callFn(h, nil, nil, nil)
 	in.runSpawned()
+	x.flushAsserts()
 	if x.ShardN > 1 && len(x.Decs) < x.ShardDepth && !x.ownsPrefix() {
 		return "notowned"
 	}
